@@ -348,3 +348,32 @@ KTASK = Harness(
     stubs=STUBS_COMMON,
 )
 HARNESSES.append(KTASK)
+
+
+# ------------------------------------------------------------------------------ J-race (scenario shared with C19)
+def _jrace_fn(a, tier):
+    from . import c19 as _c19
+
+    return _c19._race(a, tier, 0)
+
+
+def _jrace_params(tier):
+    from . import c19 as _c19
+
+    return _c19.race_params(tier)
+
+
+JRACE = Harness(
+    prop="C02",
+    name="J-race",
+    fn=guard(_jrace_fn),
+    params=_jrace_params,
+    cube=lambda tier: 3,
+    title="one injected coroutine function called concurrently from two sibling contexts: nothing of the sibling is injected",
+    bound_text=lambda tier: "as C19 J-race: two tasks in two contexts call the same @inject coroutine function with two injected parameters (the first static / sync-factory / async-factory, "
+    "the second from an async factory awaiting 0-2 checkpoints) under arbitrary schedule prefixes",
+    oracle="each call is injected exactly what the explicit lookups in its own context return (nothing sideways; injected parameters agree with the other lookup paths)",
+    outside="more than two concurrent calls",
+    stubs=STUBS_COMMON,
+)
+HARNESSES.append(JRACE)
